@@ -242,4 +242,29 @@ theorem splitAt_spec {p : Int} {l a b : List Int} (hs : Asc l) (h : splitAt p l 
           have := hs'.1 p hp; omega
         · exact h3 y hy
 
+/-! ### the last element of the slice (`Prune` resets `max` to it) -/
+
+theorem lastOr_mem (d : Int) (l : List Int) : (l = [] ∧ lastOr d l = d) ∨ lastOr d l ∈ l := by
+  induction l generalizing d with
+  | nil => exact Or.inl ⟨rfl, rfl⟩
+  | cons x t ih =>
+    right
+    show lastOr x t ∈ x :: t
+    rcases ih x with ⟨_, h⟩ | h
+    · rw [h]; exact List.mem_cons_self ..
+    · exact List.mem_cons_of_mem _ h
+
+theorem le_lastOr {l : List Int} (hs : Asc l) (d : Int) : ∀ y ∈ l, y ≤ lastOr d l := by
+  induction l generalizing d with
+  | nil => intro y hy; cases hy
+  | cons x t ih =>
+    have hs' := List.pairwise_cons.mp hs
+    intro y hy
+    show y ≤ lastOr x t
+    rcases List.mem_cons.mp hy with rfl | hy
+    · rcases lastOr_mem y t with ⟨_, h⟩ | h
+      · rw [h]; exact Int.le_refl _
+      · exact Int.le_of_lt (hs'.1 _ h)
+    · exact ih hs'.2 x y hy
+
 end ZChain.MagicBlocks
